@@ -410,7 +410,8 @@ template <class C> struct Interp {
         const int op = tab[ob_op % tab.size()];
         const int ai = ob % nobj, bi = (ai + 1 + (ob >> 4) % (nobj - 1)) % nobj;
         const bool use_main = (xb % 5) == 0;
-        const size_t blen = (xb / 5) % 9;
+        // source buffers: mostly 0..8 characters; in long cases also tens and hundreds (block-wise copy loops)
+        const size_t blen = (g_long && (cb & 0x40)) ? 9 + ((size_t)(xb / 5) % 9) * 37 + (cb & 31) : (xb / 5) % 9;
         const bool derived = (xb / 45) & 1, twin_written = (xb / 90) & 1;
         const size_t sz = m[ai].ref.size();
         g_cur_op = OPN[op];
